@@ -178,10 +178,10 @@ pub fn draw(ch: &mut Chooser, prof: &Profile) -> Cfg {
     }
     let stop_w = [4u32, 12, 2, 1][ch.choose(4) as usize];
     let snoop = ch.chance(prof.snoop_pc, 100);
-    let mut budget = [250u32, 80, 250, 600][ch.choose(4) as usize];
+    let mut budget = if prof.deep { [250u32, 80, 600, 1200][ch.choose(4) as usize] } else { [250u32, 80, 250, 600][ch.choose(4) as usize] };
     // one run in 256 is a soak run: a long history on few contexts (state that only
     // accumulates — counters, caches — needs hundreds of deliveries to matter)
-    let soak = ch.choose(256) == 255;
+    let soak = if prof.deep { ch.choose(256) >= 252 } else { ch.choose(256) == 255 };
     let mut stop_w = stop_w;
     if soak {
         budget = 4000;
